@@ -158,11 +158,19 @@ def run(tier):
     rc, o, e = sh([tools + "/gensquashfs", "-q", "-f", "-c", "gzip", "-b", "4096", "-F", scen[1].packfile(), img], timeout=60)
     if rc:
         raise RuntimeError("cannot build reference image")
-    cases = [Case("gensquashfs", "gensquashfs", ["-q", "-f", "-c", "gzip", "-b", "4096", "-j", "2", "-Q", "3", "-F", s.packfile(), s.dir + "/o_@.sqfs"], s.dir, True, out=s.dir + "/o_@.sqfs"),
+    cases = [Case("gensquashfs", "gensquashfs", ["-q", "-f", "-c", "gzip", "-b", "4096", "-j", "2", "-Q", "3", "-e", "-F", s.packfile(), s.dir + "/o_@.sqfs"], s.dir, True, out=s.dir + "/o_@.sqfs"),
              Case("tar2sqfs", "tar2sqfs", ["-q", "-f", "-c", "zstd", "-b", "4096", work + "/t_@.sqfs"], work, True, stdin=tarb, out=work + "/t_@.sqfs"),
              Case("sqfs2tar", "sqfs2tar", [img], work, False, stdout_is_output=True),
              Case("rdsquashfs-cat", "rdsquashfs", ["-c", "big", img], work, False, stdout_is_output=True),
              Case("rdsquashfs-unpack", "rdsquashfs", ["-q", "-u", "/", "-p", ".", img], work, False, outdir=work + "/un_@")]
+    # exactly 512 entries + the root = inode 513 with -e: the export table array (initial capacity 512) grows when the root entry is
+    # added, at the very end of the run - an allocation whose failure must not be taken for "nothing to do"
+    s3 = gen.Scenario(work, "s_export513")
+    for i in range(512):
+        s3.add_pipe("/p%03d" % i)
+    ce = Case("gensquashfs-export513", "gensquashfs", ["-q", "-f", "-c", "gzip", "-e", "-F", s3.packfile(), s3.dir + "/o_@.sqfs"], s3.dir, True, out=s3.dir + "/o_@.sqfs")
+    ce.alloc_tail = 80                     # only allocation faults, only the last 80 positions
+    cases.append(ce)
     if tier != "quick":
         s2 = scen[4]
         cases += [Case("gensquashfs-xz-many", "gensquashfs", ["-q", "-f", "-c", "xz", "-b", "4096", "-e", "-F", s2.packfile(), s2.dir + "/o_@.sqfs"], s2.dir, True, out=s2.dir + "/o_@.sqfs"),
@@ -186,7 +194,7 @@ def run(tier):
             counts["a"] = max([int(v[0]) for v in vals] + [counts.get("a", 0)])
         c.counts = counts
         cap = 400 if tier == "quick" else 5000
-        for cls in "wrot":
+        for cls in ("" if getattr(c, "alloc_tail", 0) else "wrot"):
             n = counts[cls]
             ks = list(range(1, n + 1))
             if len(ks) > cap:
@@ -197,6 +205,8 @@ def run(tier):
                 for kind, errno in (kinds if tier != "quick" else kinds[:1] + kinds[2:]):
                     plan.append((c, cls, kind, errno, k))
         ks = list(range(1, counts["a"] + 1))
+        if getattr(c, "alloc_tail", 0):
+            ks = ks[-c.alloc_tail:]
         if len(ks) > cap:
             ks = sorted(rng.sample(ks, cap))
         for k in ks:
